@@ -181,3 +181,121 @@ def nan_refused(ctx, prop, sites, why):
                           '%s.%s: no refusing guard is taken when %r is a NaN (every ordering comparison with it is False; '
                           'guards seen: %s): %s' % (clsname, meth, param, '; '.join(seen)[:300] or 'none', why), where=f.where)
     ctx.floor(rule, len(sites), len(sites), 'numeric entry points')
+
+
+# ------------------------------------------------------------------------------------------------------------------
+# absorption: x + eps == x in floating point
+
+def _abs_eval(e, env, temps, depth=0):
+    """value of a numeric expression in the abstract domain {'C', 'eps', 0, None}: C is the common value of level and
+    capacity of a full container, eps a positive amount too small to change C when added to it"""
+    if isinstance(e, ast.Name) and e.id in temps and depth < 4:
+        return _abs_eval(temps[e.id], env, temps, depth + 1)
+    key = ast.unparse(e)
+    if key in env:
+        return env[key]
+    if isinstance(e, ast.Constant) and e.value == 0:
+        return 0
+    if isinstance(e, ast.BinOp) and isinstance(e.op, (ast.Add, ast.Sub)):
+        l, r = _abs_eval(e.left, env, temps, depth), _abs_eval(e.right, env, temps, depth)
+        if l is None or r is None:
+            return None
+        if isinstance(e.op, ast.Add):
+            if {l, r} == {'C', 'eps'} or (l, r) in (('C', 0), (0, 'C')):
+                return 'C'                                # absorbed
+            if (l, r) in (('eps', 0), (0, 'eps')):
+                return 'eps'
+            if (l, r) == (0, 0):
+                return 0
+            return None
+        if (l, r) == ('C', 'C') or (l, r) == (0, 0):
+            return 0
+        if (l, r) == ('C', 'eps') or (l, r) == ('C', 0):
+            return 'C'
+        if (l, r) == ('eps', 0):
+            return 'eps'
+        return None
+    return None
+
+
+_ORDER = {0: 0, 'eps': 1, 'C': 2}
+
+
+def _abs_cond(t, env, temps, depth=0):
+    if isinstance(t, ast.Name) and t.id in temps and depth < 4:
+        return _abs_cond(temps[t.id], env, temps, depth + 1)
+    if isinstance(t, ast.UnaryOp) and isinstance(t.op, ast.Not):
+        v = _abs_cond(t.operand, env, temps, depth)
+        return None if v is None else (not v)
+    if isinstance(t, ast.BoolOp):
+        vs = [_abs_cond(v, env, temps, depth) for v in t.values]
+        if isinstance(t.op, ast.And):
+            if any(v is False for v in vs):
+                return False
+            return True if all(v is True for v in vs) else None
+        if any(v is True for v in vs):
+            return True
+        return False if all(v is False for v in vs) else None
+    if isinstance(t, ast.Compare):
+        left = t.left
+        out = True
+        for op, right in zip(t.ops, t.comparators):
+            l, r = _abs_eval(left, env, temps), _abs_eval(right, env, temps)
+            if l is None or r is None:
+                return None
+            a, b = _ORDER[l], _ORDER[r]
+            v = {ast.Lt: a < b, ast.LtE: a <= b, ast.Gt: a > b, ast.GtE: a >= b, ast.Eq: a == b, ast.NotEq: a != b}.get(type(op))
+            if v is None:
+                return None
+            out = out and v
+            left = right
+        return out
+    return None
+
+
+def absorbed_put_refused(ctx, prop):
+    """A full container (level == capacity) must refuse every put.  `level + amount <= capacity` does not: an amount
+    below the resolution of the level is absorbed by the addition, the sum *is* the capacity, the put is granted,
+    and a producer looping on it never blocks.  The grant guard of Container._do_put is evaluated in the abstract
+    domain {0, eps, C} with C + eps = C; it must come out False."""
+    rule = prop + '.G.absorbed-put'
+    c = ctx.repo.find_class('Container')
+    f = c.methods.get('_do_put')
+    if f is None:
+        raise AnalysisError('%s: anchor vanished: Container._do_put' % rule)
+    evname = [p for p in f.params if p != 'self'][0]
+    env = {'self._level': 'C', 'self.level': 'C', 'self._capacity': 'C', 'self.capacity': 'C', '%s.amount' % evname: 'eps'}
+    temps, count = {}, {}
+    for n in walk_local(f.node):
+        if isinstance(n, ast.Assign) and len(n.targets) == 1 and isinstance(n.targets[0], ast.Name):
+            temps[n.targets[0].id] = n.value
+            count[n.targets[0].id] = count.get(n.targets[0].id, 0) + 1
+    temps = {k: v for k, v in temps.items() if count[k] == 1}
+    grants = []
+    for n in walk_local(f.node):
+        if isinstance(n, ast.If):
+            body_grants = any(isinstance(x, ast.Call) and isinstance(x.func, ast.Attribute) and x.func.attr == 'succeed' for s_ in n.body for x in ast.walk(s_))
+            else_grants = any(isinstance(x, ast.Call) and isinstance(x.func, ast.Attribute) and x.func.attr == 'succeed' for s_ in n.orelse for x in ast.walk(s_))
+            if body_grants or else_grants:
+                grants.append((n, body_grants))
+    if not grants:
+        # guard clause form: if not fits: return False ; ... succeed()
+        for n in walk_local(f.node):
+            if isinstance(n, ast.If) and n.body and isinstance(n.body[-1], ast.Return) and not n.orelse:
+                grants.append((n, False))
+    if not grants:
+        raise AnalysisError('%s: no grant guard found in Container._do_put' % rule)
+    construct = '%s::%s' % (f.module.relpath, f.qualname)
+    for n, positive in grants:
+        v = _abs_cond(n.test, env, temps)
+        granted = v if positive else (None if v is None else (not v))
+        ok = granted is False
+        ctx.ob(rule, ok)
+        if ok:
+            ctx.sample(rule, construct, 'guard %s refuses an absorbed amount on a full container' % ast.unparse(n.test)[:120])
+        else:
+            ctx.violation(rule, construct, 'absorbed put granted',
+                          'Container._do_put: the guard `%s` %s when level == capacity and the amount is below the resolution of '
+                          'the level (level + amount == level): a full container grants puts for ever' %
+                          (ast.unparse(n.test)[:160], 'holds' if granted else 'cannot be shown to fail'),
+                          where='%s:%d' % (f.module.relpath, n.lineno))
